@@ -54,12 +54,176 @@ static int cmd_can(char** tok, int nt)
     c.payload = ext_source(pay_b, plen);
     char status[64];
     ext_call(can_fn, &c, status, sizeof status, arena);
-    ext_result(status, c.ret, 0, 0, arena, alen);
+    ext_result(status, c.ret, 0, 0, arena, alen); putchar('\n');
     return 1;
+}
+
+
+/* ------------------------------------------------------------------ VSS codec (C07-C10)
+ * VS <op> <dt> <mode> <n> <cap> <base> <place> <off> <arenahex> <arghex>
+ *   op: putpath putdata calcpath getpath getdata pad
+ *   values are logical big-endian bytes; the harness turns them into host-typed C objects and back.
+ * answer: R status ret rc out arena canary len=<n> data=<hex> dirty=<0|1>                       */
+#include "avtp/acf/custom/Vss.h"
+typedef struct { uint16_t data_length; void* data; } GenArr;     /* layout of every VssData*Array_t / VssDataString_t */
+static int elem_size(int dt) { int k = dt >= 128 ? dt - 128 : dt;
+    switch (k) { case 2: case 3: return 2; case 4: case 5: case 9: return 4; case 6: case 7: case 10: return 8; default: return 1; } }
+static int is_var(int dt) { return dt == 11 || (dt >= 128 && dt <= 139); }
+static void to_host(const uint8_t* be, uint8_t* host, size_t nbytes, int es)
+{   /* logical big-endian element bytes -> host objects */
+    for (size_t i = 0; i + es <= nbytes; i += es) {
+        uint64_t v = 0; for (int k = 0; k < es; k++) v = (v << 8) | be[i + k];
+        switch (es) { case 1: host[i] = (uint8_t)v; break;
+            case 2: { uint16_t x = (uint16_t)v; memcpy(host + i, &x, 2); } break;
+            case 4: { uint32_t x = (uint32_t)v; memcpy(host + i, &x, 4); } break;
+            default: memcpy(host + i, &v, 8); }
+    }
+}
+static void from_host(const uint8_t* host, uint8_t* be, size_t nbytes, int es)
+{
+    for (size_t i = 0; i + es <= nbytes; i += es) {
+        uint64_t v = 0;
+        switch (es) { case 1: v = host[i]; break;
+            case 2: { uint16_t x; memcpy(&x, host + i, 2); v = x; } break;
+            case 4: { uint32_t x; memcpy(&x, host + i, 4); v = x; } break;
+            default: memcpy(&v, host + i, 8); }
+        for (int k = es - 1; k >= 0; k--) { be[i + k] = (uint8_t)v; v >>= 8; }
+    }
+}
+typedef struct { const char* op; int dt, mode; long n; Avtp_Vss_t* pdu; VssPath_t path; VssData_t data; GenArr arr; uint64_t ret; } VssCtx;
+static void vss_fn(void* p)
+{
+    VssCtx* c = p;
+    if (!strcmp(c->op, "putpath")) Avtp_Vss_SetVssPath(c->pdu, &c->path);
+    else if (!strcmp(c->op, "putdata")) Avtp_Vss_SetVssData(c->pdu, &c->data);
+    else if (!strcmp(c->op, "calcpath")) c->ret = Avtp_Vss_CalcVssPathLength(c->pdu);
+    else if (!strcmp(c->op, "getpath")) Avtp_Vss_GetVssPath(c->pdu, &c->path);
+    else if (!strcmp(c->op, "getdata")) Avtp_Vss_GetVssData(c->pdu, &c->data);
+    else if (!strcmp(c->op, "pad")) Avtp_Vss_Pad(c->pdu, (uint16_t)c->n);
+}
+static int cmd_vss(char** tok, int nt)
+{
+    static uint8_t arena_b[EXT_MAXARENA], arg_b[EXT_MAXARENA], host_b[EXT_MAXARENA], res_b[EXT_MAXARENA];
+    if (nt < 11) return 0;
+    VssCtx c; memset(&c, 0, sizeof c);
+    c.op = tok[1]; c.dt = atoi(tok[2]); c.mode = atoi(tok[3]); c.n = atol(tok[4]);
+    long cap = atol(tok[5]), base = atol(tok[6]); char place = tok[7][0]; long off = atol(tok[8]);
+    size_t alen = unhex(tok[9], arena_b, sizeof arena_b);
+    size_t arglen = unhex(tok[10], arg_b, sizeof arg_b);
+    uint8_t* arena = ext_place(place, off, arena_b, alen);
+    c.pdu = (Avtp_Vss_t*)(arena + base);
+    int es = elem_size(c.dt);
+    uint8_t* dest = NULL; size_t reslen = 0; int have_res = 0, dirty = 0;
+    memset(&c.data, 0xCD, sizeof c.data); memset(&c.path, 0xCD, sizeof c.path);
+    c.arr.data_length = 0xBEEF; c.arr.data = NULL;
+    if (!strcmp(c.op, "putpath")) {
+        if (c.mode == 1) { uint32_t id = 0; for (size_t i = 0; i < 4 && i < arglen; i++) id = (id << 8) | arg_b[i]; c.path.vss_static_id_path = id; }
+        else { c.path.vss_interop_path.path_length = (uint16_t)arglen; c.path.vss_interop_path.path = (char*)ext_source(arg_b, arglen); }
+    } else if (!strcmp(c.op, "putdata")) {
+        to_host(arg_b, host_b, arglen, es);
+        if (is_var(c.dt) || c.dt > 11) { c.arr.data_length = (uint16_t)arglen; c.arr.data = ext_source(host_b, arglen); c.data.data_string = (VssDataString_t*)&c.arr; }
+        else memcpy(&c.data, host_b, es);          /* scalar members all start at offset 0 of the union */
+    } else if (!strcmp(c.op, "getpath")) {
+        if (c.mode != 1) { dest = ext_dest(0, cap, 0xCD); c.path.vss_interop_path.path = (char*)dest; c.path.vss_interop_path.path_length = 0xBEEF; }
+    } else if (!strcmp(c.op, "getdata")) {
+        if (is_var(c.dt)) { dest = c.n ? ext_dest(0, cap, 0xCD) : NULL; c.arr.data = dest; c.data.data_string = (VssDataString_t*)&c.arr; }
+    }
+    char status[64];
+    ext_call(vss_fn, &c, status, sizeof status, arena);
+    if (status[0] == 'o') {
+        if (!strcmp(c.op, "getpath")) {
+            have_res = 1;
+            if (c.mode == 1) { uint32_t id = c.path.vss_static_id_path; res_b[0] = id >> 24; res_b[1] = id >> 16; res_b[2] = id >> 8; res_b[3] = id; reslen = 4; }
+            else { reslen = c.path.vss_interop_path.path_length; if (reslen > (size_t)cap) reslen = cap; memcpy(res_b, dest, reslen);
+                   reslen = c.path.vss_interop_path.path_length; dirty = ext_dest_dirty(0, cap, 0xCD); }
+        } else if (!strcmp(c.op, "getdata")) {
+            have_res = 1;
+            if (is_var(c.dt)) { reslen = c.arr.data_length;
+                if (dest) { size_t m = reslen > (size_t)cap ? (size_t)cap : reslen; from_host(dest, res_b, m, es); dirty = ext_dest_dirty(0, cap, 0xCD); } }
+            else { reslen = es; from_host((uint8_t*)&c.data, res_b, es, es); }
+        }
+    }
+    ext_result(status, c.ret, 0, 0, arena, alen);
+    printf(" len=%zu data=", have_res ? reslen : 0);
+    if (have_res && (dest || !is_var(c.dt) || !strcmp(c.op, "getpath"))) puthex(res_b, reslen > (size_t)cap && (dest) ? (size_t)cap : reslen); else putchar('-');
+    printf(" dirty=%d\n", dirty);
+    return 1;
+}
+
+/* SA pack <destcap> <hex,hex,...>     SA count <blobhex>     SA unpack <req> <withdest> <blobhex> <cap,cap,...>   */
+typedef struct { const char* op; VssDataStringArray_t arr; VssDataString_t* ptrs[512]; VssDataString_t strs[512]; int n; uint64_t ret; } SaCtx;
+static void sa_fn(void* p)
+{
+    SaCtx* c = p;
+    if (!strcmp(c->op, "pack")) Avtp_Vss_SerializeStringArray(&c->arr, c->ptrs, (uint16_t)c->n);
+    else if (!strcmp(c->op, "count")) c->ret = Avtp_Vss_GetVSSDataStringArrayLength(&c->arr);
+    else if (!strcmp(c->op, "unpack")) Avtp_Vss_DeserializeStringArray(&c->arr, c->ptrs, (uint16_t)c->n);
+}
+static int cmd_sa(char** tok, int nt)
+{
+    static SaCtx c; static uint8_t blob[EXT_MAXARENA], strs[EXT_MAXARENA];
+    static uint8_t dummy[8];
+    memset(&c, 0, sizeof c);
+    if (nt < 3) return 0;
+    c.op = tok[1];
+    char status[64];
+    if (!strcmp(c.op, "pack") && nt >= 4) {
+        long cap = atol(tok[2]);
+        size_t used = 0; char* s = tok[3];
+        while (*s && c.n < 512) {                      /* comma separated hex strings; "-" = empty */
+            char* e = strchr(s, ','); if (e) *e = 0;
+            size_t l = unhex(s, strs + used, sizeof strs - used);
+            c.strs[c.n].data_length = (uint16_t)l; c.strs[c.n].data = (char*)(strs + used); c.ptrs[c.n] = &c.strs[c.n];
+            used += l; c.n++;
+            if (!e) break; s = e + 1;
+        }
+        if (!strcmp(tok[3], "none")) c.n = 0;
+        uint8_t* dest = ext_dest(0, cap, 0xCD);
+        c.arr.data = dest; c.arr.data_length = 0xBEEF;
+        ext_call(sa_fn, &c, status, sizeof status, dest);
+        printf("R %s len=%u data=", status, (unsigned)c.arr.data_length); puthex(dest, cap); printf(" dirty=%d\n", ext_dest_dirty(0, cap, 0xCD));
+        return 1;
+    }
+    if (!strcmp(c.op, "count")) {
+        size_t l = unhex(tok[2], blob, sizeof blob);
+        c.arr.data = ext_source(blob, l); c.arr.data_length = (uint16_t)l;
+        ext_call(sa_fn, &c, status, sizeof status, c.arr.data);
+        printf("R %s ret=%llu\n", status, (unsigned long long)c.ret);
+        return 1;
+    }
+    if (!strcmp(c.op, "unpack") && nt >= 6) {
+        c.n = atoi(tok[2]); int withdest = atoi(tok[3]);
+        size_t l = unhex(tok[4], blob, sizeof blob);
+        c.arr.data = ext_source(blob, l); c.arr.data_length = (uint16_t)l;
+        long caps[512]; int nc = 0; char* s = tok[5];
+        while (*s && nc < 512) { caps[nc++] = atol(s); char* e = strchr(s, ','); if (!e) break; s = e + 1; }
+        uint8_t* dests[512];
+        for (int i = 0; i < c.n && i < 512; i++) {
+            long cap = i < nc ? caps[i] : 0;
+            dests[i] = NULL;
+            if (withdest) dests[i] = (i < 8) ? ext_dest(1 + i, cap, 0xCD) : dummy;
+            c.strs[i].data_length = 0xBEEF; c.strs[i].data = (char*)dests[i]; c.ptrs[i] = &c.strs[i];
+        }
+        ext_call(sa_fn, &c, status, sizeof status, c.arr.data);
+        printf("R %s res=", status);
+        for (int i = 0; i < c.n && i < 512; i++) {
+            long cap = i < nc ? caps[i] : 0;
+            unsigned dl = c.strs[i].data_length;
+            printf("%s%u:", i ? "," : "", dl);
+            if (withdest && i < 8 && dl != 0xBEEF) puthex(dests[i], dl > (unsigned)cap ? (size_t)cap : dl); else putchar('-');
+            if (withdest && i < 8 && ext_dest_dirty(1 + i, cap, 0xCD)) printf("!dirty");
+        }
+        if (c.n == 0) putchar('-');
+        putchar('\n');
+        return 1;
+    }
+    return 0;
 }
 
 int exec_ext(char** tok, int nt)
 {
+    if (!strcmp(tok[0], "VS")) return cmd_vss(tok, nt);
+    if (!strcmp(tok[0], "SA")) return cmd_sa(tok, nt);
     if (!strcmp(tok[0], "CB")) return cmd_can(tok, nt);
     return 0;
 }
